@@ -70,7 +70,7 @@ type w7Source struct {
 	bigEvents  bool
 	maxMetrics int
 	// names freed by a rename of a metric that still exists (probe: reuse after rename)
-	freedByRename map[string]bool
+	freedByRename  map[string]bool
 	allMetricNames map[string]bool
 }
 
@@ -324,6 +324,9 @@ func (s *w7Source) opCreateMetric() string {
 	s.nextID++
 	m.spec.Kind = format.MetricKindCounter
 	m.spec.Tags = w7TagSets[s.w.c.Intn(len(w7TagSets), "tags")]
+	if s.bigEvents && s.w.c.Intn(2, "big_create") == 1 {
+		m.spec.Description = s.bigDescription()
+	}
 	s.metrics = append(s.metrics, m)
 	if s.freedByRename[name] {
 		s.w.r.Probe("src_name_reused_after_rename")
@@ -406,17 +409,24 @@ func (s *w7Source) opEditMetricHidden() string {
 		m.spec.StringTopDescription = w7Next(c, m.spec.StringTopDescription, []string{"", "top", "other"}, "stop_descr")
 		what = "string_top_description"
 	default:
-		pad := 150_000 + 10_000*c.Intn(16, "big_len")
-		prefix := "big "
-		if c.Intn(2, "big_kept") == 1 {
-			prefix = "big __whales_off "
-		}
-		m.spec.Description = prefix + strings.Repeat("x", pad)
+		m.spec.Description = s.bigDescription()
 		what = "big description"
-		s.w.r.Probe("src_big_event")
 	}
 	ev := s.saveMetric(m, false)
 	return "edit metric (" + what + ") " + w7EvStr(ev)
+}
+
+// bigDescription makes an event of 180-330 KB so that saved files span several 512 KB chunks
+// (a damaged file then loads partly). Half of them carry a mark that compact journals keep.
+func (s *w7Source) bigDescription() string {
+	c := s.w.c
+	pad := 180_000 + 10_000*c.Intn(16, "big_len")
+	prefix := "big "
+	if c.Intn(2, "big_kept") == 1 {
+		prefix = "big __whales_off "
+	}
+	s.w.r.Probe("src_big_event")
+	return prefix + strings.Repeat("x", pad)
 }
 
 func (s *w7Source) opRenameMetric() string {
